@@ -59,12 +59,14 @@ def prop_case(draw):
     ordmax = draw(st.integers(2, max(2, omax)))
     ordmax = min(ordmax, omax)
     return {"sys": s, "refs": refs, "br": br, "ordmax": ordmax, "eps": draw(st.sampled_from([1e-2, 1e-3, 5e-2])),
-            "ncol": draw(st.integers(1, 20)), "tscale": draw(st.sampled_from([1e-3, 1.0, 1e-6])), "seed": draw(st.integers(0, 2**32 - 1))}
+            "ncol": draw(st.integers(1, 20)), "tscale": draw(st.sampled_from([1e-3, 1.0, 1e-6])), "seed": draw(st.integers(0, 2**32 - 1)),
+            "forder": draw(st.integers(0, 3)) == 0, "hscale": 10.0 ** draw(st.sampled_from([0.0, 0.0, -6.0, -12.0, 4.0]))}
 
 
 def judge_propagation(case):
     j = J()
     S, H = _hankel(case)
+    H = H * float(case.get("hscale", 1.0))  # records in small units give small covariances (the problem is scale-free)
     br, ordmax = case["br"], case["ordmax"]
     if ordmax < 2 or ordmax > min(H.shape) - 1:
         j.skip("order-exceeds-matrix")
@@ -80,7 +82,9 @@ def judge_propagation(case):
     if np.min(gaps) < 1e-3:
         j.skip("singular-value-gap<1e-3")
         return j
-    out = sut(ssi.SSI_fast, H.copy(), br, ordmax, calc_unc=True, T=T.copy(), nb=nc)
+    Hin = np.asfortranarray(H.copy()) if case.get("forder") else H.copy()  # memory layout must not matter
+    Hin0 = Hin.copy()
+    out = sut(ssi.SSI_fast, Hin, br, ordmax, calc_unc=True, T=T.copy(), nb=nc)
     if not j.check(not raised(out), "fast-unc-raises", lambda: f"{out!r}"):
         return j
     Obs, A, C, Q1, Q2, Q3, Q4 = out
@@ -88,6 +92,11 @@ def judge_propagation(case):
     if not j.check(not raised(pol), "poles-unc-raises", lambda: f"{pol!r}"):
         return j
     Fn, Xi, Phi, Lam, Fn_cov = pol[0], pol[1], pol[2], pol[3], pol[4]
+    j.check(np.array_equal(Hin, Hin0), "hankel-mutated", "SSI_fast modified the Hankel matrix it was given")
+    # a second evaluation with the same sensitivity matrices gives the same variances
+    pol2 = sut(ssi.SSI_poles, Obs, A, C, ordmax, dt, calc_unc=True, Q1=Q1, Q2=Q2, Q3=Q3, Q4=Q4)
+    if j.check(not raised(pol2), "poles-unc-again-raises", lambda: f"{pol2!r}"):
+        j.check(np.array_equal(np.asarray(pol2[4]), np.asarray(Fn_cov), equal_nan=True), "variance-second-call", "a second SSI_poles call on the same Q matrices reports different variances")
     if not j.check(Fn_cov is not None and np.asarray(Fn_cov).shape == Fn.shape, "cov-shape", lambda: f"{None if Fn_cov is None else np.asarray(Fn_cov).shape} vs {Fn.shape}"):
         return j
     norm = np.linalg.norm(H)
